@@ -38,6 +38,17 @@ func (m Map) ReferenceOrigins(ctx context.Context) reference.Origins {
 					origins = append(origins, expr.ReferenceOrigins(ctx)...)
 				}
 			}
+			// a quoted key with interpolation, such as "${var.foo}-bar"
+			tplExpr, ok := keyExpr.Wrapped.(*hclsyntax.TemplateExpr)
+			if ok && !tplExpr.IsStringLiteral() {
+				keyCons := schema.AnyExpression{
+					OfType: cty.String,
+				}
+				kExpr := newExpression(m.pathCtx, tplExpr, keyCons)
+				if expr, ok := kExpr.(ReferenceOriginsExpression); ok {
+					origins = append(origins, expr.ReferenceOrigins(ctx)...)
+				}
+			}
 		}
 
 		valExpr := newExpression(m.pathCtx, item.Value, m.cons.Elem)
